@@ -223,7 +223,10 @@ func (l *OpenFgaDslListener) ExitConditionParameter(ctx *parser.ConditionParamet
 }
 
 func (l *OpenFgaDslListener) ExitConditionExpression(ctx *parser.ConditionExpressionContext) {
-	l.currentCondition.Expression = strings.TrimRight(ctx.GetText(), "\n")
+	// the expression rule also takes the white space in front of the closing brace (the line break, or
+	// blanks when the brace stands on the expression's line): it is layout, not part of the expression,
+	// and the printer puts the brace on a line of its own
+	l.currentCondition.Expression = strings.TrimRight(ctx.GetText(), " \t\f\r\n")
 }
 
 func (l *OpenFgaDslListener) ExitCondition(_ *parser.ConditionContext) {
